@@ -97,7 +97,7 @@ func (c *c06) Assumptions() []string {
 }
 
 func (c *c06) ProbeNames() []string {
-	return []string{"overwrite_with_longer_output", "overwrite_with_shorter_output", "new_with_stale_vored_longer_than_output", "replace_with_zero_matches_written", "file_listed_twice", "empty_file_replaced", "two_replace_commands_one_source", "file_larger_than_window_replaced", "op_after_earlier_write_op", "nothing_mode_replace", "find_only_program_in_write_mode"}
+	return []string{"overwrite_with_longer_output", "overwrite_with_shorter_output", "new_with_stale_vored_longer_than_output", "replace_with_zero_matches_written", "file_listed_twice", "empty_file_replaced", "two_replace_commands_one_source", "file_larger_than_window_replaced", "op_after_earlier_write_op", "nothing_mode_replace", "find_only_program_in_write_mode", "vored_file_searched"}
 }
 
 func (c *c06) SweepPrefix(string, uint64) []uint64 { return nil }
@@ -234,6 +234,11 @@ func (c *c06) Run(ctx *RunCtx) *RunResult {
 		if t.Draw(4) == 0 {
 			// stale .vored, longer than any plausible output
 			model[name+".vored"] = []byte(strings.Repeat("STALE-", len(content)/2+20))
+			if t.Draw(3) == 0 {
+				// an earlier run's output may itself be searched later (a glob or directory picks it up)
+				names = append(names, name+".vored")
+				ctx.Count("vored_file_searched", 1)
+			}
 		}
 	}
 	for n, b := range model {
